@@ -115,8 +115,64 @@ def run(ctx: Ctx):
     ctx.guarded(inverse_mirror, ctx, fis["partial_unfold"], fis["partial_fold"])
     ctx.guarded(forward, ctx, fis["partial_tensor_to_vec"], fis["partial_unfold"], {"mode": 0, "ravel_tensors": True})
     ctx.guarded(forward, ctx, fis["partial_vec_to_tensor"], fis["partial_fold"], {"mode": 0})
+    res.rule("AXIS-AS-GIVEN", "the layout functions hand their ordering parameter (mode, skip_begin ...) to the primitives as given; if one of them re-binds it (normalising a negative mode), the correction is the tensor ORDER -- ndim(tensor) / len(shape) -- and nothing else: len(tensor) or shape[0] is a mode size", floor=9)
+    for n, fi in fis.items():
+        ctx.guarded(axis_as_given, ctx, fi)
     res.rule("PRIM-IS-NUMPY", "the NumPy backend's reshape / moveaxis / transpose -- the primitives whose NumPy semantics the other rules trust -- are NumPy's own functions: registered under their own name with getattr(np, name) / np.<name>, or a method of NumpyBackend that returns exactly np.<name>(its parameters). A wrapper that post-processes the result (copy, contiguity, conversion) is no longer the trusted bijection: it may drop what NumPy's function keeps (subclass, mask, strides, dtype)", floor=3)
     ctx.guarded(prim_is_numpy, ctx)
+
+
+# ---------------------------------------------------------------------------------
+# AXIS-AS-GIVEN: an ordering parameter is only ever corrected by the tensor order
+# ---------------------------------------------------------------------------------
+def _is_order_expr(e, fi):
+    """ndim(t) / t.ndim / len(shape(t)) / len(t.shape) / len(<shape parameter>)"""
+    if isinstance(e, ast.Call) and (call_name(e) or "") == "ndim":
+        return True
+    if isinstance(e, ast.Attribute) and e.attr == "ndim":
+        return True
+    if isinstance(e, ast.Call) and isinstance(e.func, ast.Name) and e.func.id == "len" and len(e.args) == 1:
+        a = e.args[0]
+        if isinstance(a, ast.Call) and (call_name(a) or "") == "shape":
+            return True
+        if isinstance(a, ast.Attribute) and a.attr == "shape":
+            return True
+        if isinstance(a, ast.Name) and (a.id == "shape" or a.id.endswith("_shape")):
+            return True
+    return False
+
+
+def axis_as_given(ctx: Ctx, fi):
+    res = ctx.res
+    params = [p for p in ORDER_PARAMS if p in fi.all_params]
+    stores = []
+    for st in own_scope_nodes(fi.node):
+        if isinstance(st, ast.Assign) and len(st.targets) == 1 and isinstance(st.targets[0], ast.Name) and st.targets[0].id in params:
+            stores.append((st, st.targets[0].id, st.value))
+        elif isinstance(st, ast.AugAssign) and isinstance(st.target, ast.Name) and st.target.id in params:
+            stores.append((st, st.target.id, ast.BinOp(left=ast.Name(id=st.target.id, ctx=ast.Load()), op=st.op, right=st.value)))
+    res.instance("AXIS-AS-GIVEN", f"{fi.qname}: ordering parameters {params}", sample={"rebound": [src(s_)[:50] for s_, _, _ in stores], "ok": True} if stores else None)
+    for st, p, v in stores:
+        ok = False
+        # p + ORDER / ORDER + p / p % ORDER / a conditional between p and one of those
+        def good(e):
+            if isinstance(e, ast.Name) and e.id == p:
+                return True
+            if isinstance(e, ast.BinOp) and isinstance(e.op, (ast.Add, ast.Mod)):
+                l, r = e.left, e.right
+                if isinstance(l, ast.Name) and l.id == p and _is_order_expr(inline_locals(fi.node, r), fi):
+                    return True
+                if isinstance(e.op, ast.Add) and isinstance(r, ast.Name) and r.id == p and _is_order_expr(inline_locals(fi.node, l), fi):
+                    return True
+            if isinstance(e, ast.IfExp):
+                return good(e.body) and good(e.orelse)
+            if isinstance(e, (ast.List, ast.Tuple)) or (isinstance(e, ast.Call) and isinstance(e.func, ast.Name) and e.func.id in ("list", "tuple", "int") and len(e.args) == 1):
+                return True  # a copy / conversion of a mode list, not arithmetic on it
+            return False
+
+        ok = good(v)
+        if not ok:
+            ctx.finding("AXIS-AS-GIVEN", fi, st, f"`{src(st)[:70]}` in {fi.name} re-binds the ordering parameter `{p}` with something other than `{p}` plus the tensor order (ndim / len(shape)): `len(tensor)` and `shape[0]` are the size of the first mode, so a negative `{p}` lands on another mode whenever that size differs from the order, and fold no longer inverts unfold", construct=f"{fi.name}: {p} corrected by {src(v)[:40]}")
 
 
 # ---------------------------------------------------------------------------------
